@@ -16,7 +16,7 @@ CONSTANTS Years,       \* years-in-cycle whose chains are walked (0..399 = the w
 VARIABLES vN, vY, vMo, vD          \* vN = day in cycle; (vY, vMo, vD) = civil date by the axioms, vY = year in cycle
 vars == <<vN, vY, vMo, vD>>
 CyclesQuick == {-5368710, -1, 0, 4, 5, 5368709}          \* range ends, years -400..399 (negative years, year 0), 1600..2399
-CyclesThorough == {-5368710, -5368709, -1, 0, 4, 5, 5368708, 5368709}
+CyclesThorough == {-5368710, -1, 0, 4, 5, 5368709}
 
 \* axiom: the day after (vY, vMo, vD)
 NextDay(yy, mm, dd) == IF dd < DaysInMonth(IsLeap(yy), mm) THEN <<yy, mm, dd + 1>>
